@@ -55,8 +55,10 @@ def run(ctx):
         nb = 3 if i % 3 else 4
         try:
             g = cards.CardGen(rng, tag, nbody=nb, n_chains=(2, 3), res_per_slot=(1, 2) if nb == 3 else (1, 1),
-                              final_j2=(0, 0, 1, 2), models=MODELS)
+                              final_j2=(0, 0, 1, 2), models=MODELS,
+                              decay_models=("helicity_full", "helicity_parity", "gls-bf") if i % 4 == 2 else None)
             card = g.make()
+            ctx.covered("decay_models", "default only" if i % 4 != 2 else "helicity_full / helicity_parity / gls-bf on some vertices")
             cfg = cards.load(card)
             amp = cfg.get_amplitude()
             amp.set_params(cards.random_params(amp, (ctx.seed, i)))
